@@ -38,6 +38,9 @@ EXTENDS Naturals, Sequences, FiniteSets, TLC
 (***************************************************************************)
 (* Text helpers                                                            *)
 (***************************************************************************)
+\* TLC keeps a function constructor [i \in 1..n |-> e] LAZY and re-evaluates e at every application; recursive operators
+\* over such sequences would cost exponentially in the nesting depth.  Strict() turns it into a concrete tuple, once.
+Strict(f) == f \o << >>
 Digits    == {"0", "1", "2", "3", "4", "5", "6", "7", "8", "9"}
 RECURSIVE Join(_)
 Join(t)   == IF t = << >> THEN "" ELSE t[1] \o Join(Tail(t))       \* symbols glued (for printing only)
@@ -267,7 +270,7 @@ ReadPlain(t) == ReadPlainFrom(LoaderTag(t), t)
 \* space), then the other breaks normalised; all the blanks around are dropped.
 RawBreaks == {"LF", "NEL", "LS", "PS"}
 RawBlank  == {" "}
-NormBreaks(r) == [k \in 1..Len(r) |-> IF r[k] = "NEL" THEN "LF" ELSE r[k]]
+NormBreaks(r) == Strict([k \in 1..Len(r) |-> IF r[k] = "NEL" THEN "LF" ELSE r[k]])
 \* the stretch that starts at i (t[i] a blank or a break) and contains a break: its end, else 0
 RECURSIVE StretchEnd(_, _, _)
 StretchEnd(t, j, sawBreak) ==            \* j: next position to look at
@@ -294,8 +297,8 @@ ReadSingle(t) == ReadQuotedRaw(SingleWritten(t, 1), 1)
 \* json.dumps(ensure_ascii=False) (dump_json_kwargs) escapes '"', '\\' and the characters below x20 only; the text is
 \* then read by the YAML loader as a double-quoted scalar: raw x85 / u2028 / u2029 are line breaks (folded as above),
 \* and a raw character that PyYAML's reader does not accept (yaml/reader.py:136) rejects the whole document.
-JsonRaw(t)    == [k \in 1..Len(t) |-> IF t[k] = "LF" THEN "\\n" ELSE t[k]]          \* '\n' travels escaped
-JsonUnraw(t)  == [k \in 1..Len(t) |-> IF t[k] = "\\n" THEN "LF" ELSE t[k]]
+JsonRaw(t)    == Strict([k \in 1..Len(t) |-> IF t[k] = "LF" THEN "\\n" ELSE t[k]])          \* '\n' travels escaped
+JsonUnraw(t)  == Strict([k \in 1..Len(t) |-> IF t[k] = "\\n" THEN "LF" ELSE t[k]])
 ReadJsonString(t) == IF Has(t, "NPR") THEN V("error", t) ELSE V("str", JsonUnraw(ReadQuotedRaw(JsonRaw(t), 1)))
 \* double-quoted scalars escape everything that is not printable: read back as written (scanner trusted)
 YamlRead(style, t) == CASE style = "plain" -> ReadPlain(t) [] style = "single" -> StrV(ReadSingle(t)) [] style = "json" -> ReadJsonString(t) [] OTHER -> StrV(t)
@@ -356,7 +359,7 @@ JsonFloatText(r) ==
     [] OTHER -> r
 \* the float a spelling denotes, as a repr text (only the inverse of the two functions above is needed)
 FloatDenote(t) ==
-  LET u == [i \in 1..Len(t) |-> Lower(t[i])] IN
+  LET u == Strict([i \in 1..Len(t) |-> Lower(t[i])]) IN
   CASE u = <<".","n","a","n">> -> <<"n","a","n">>
     [] u \in {<<".","i","n","f">>, <<"+",".","i","n","f">>} -> <<"i","n","f">>
     [] u = <<"-",".","i","n","f">> -> <<"-","i","n","f">>
